@@ -60,7 +60,11 @@ var (
 	rejectStatuses = []int{401, 403, 404, 503}
 	// rejectStatusesOr0 adds the rejection built without ws.RejectionStatus
 	// (Status 0): it carries no chosen status, so the answer is 500.
-	rejectStatusesOr0 = []int{401, 403, 404, 503, 0, 0}
+	// and the whole range a rejection may choose: redirects (3xx, with a
+	// Location header), the edges 300, 399, 400, 499, 500, 599, and a few
+	// numbers nothing is promised for (100, 200, 204, 304, 600: open).
+	rejectStatusesOr0 = []int{401, 403, 404, 503, 0, 0, 300, 301, 302, 303, 305, 307, 308, 399, 400, 418, 451, 499, 500, 501, 599, 307, 302,
+		100, 200, 204, 304, 600}
 )
 
 var goodValues = [NumRequired][]string{
@@ -670,7 +674,7 @@ func genOutcome(t *rapid.T, label, who string, bad bool, acceptHdr bool) Outcome
 		return Outcome{Kind: CbError, Reason: reason}
 	}
 	return Outcome{Kind: CbReject, Status: rapid.SampledFrom(rejectStatusesOr0).Draw(t, label+".status"), Reason: reason,
-		Headers: genHeaders(t, label+".hdr", []string{"X-Reject-Why", "WWW-Authenticate", "Retry-After", "X-Rej-B"}, 2)}
+		Headers: genHeaders(t, label+".hdr", []string{"X-Reject-Why", "WWW-Authenticate", "Retry-After", "X-Rej-B", "Location"}, 2)}
 }
 
 // BufSizes are the ReadBufferSize/WriteBufferSize values drawn (0 = library default).
@@ -745,7 +749,7 @@ func GenConfig(t *rapid.T, label string, kind Kind, plan Plan) *Config {
 				p = ExtPolicy{Act: ExtPlainError, Reason: genReason(t, label+".ext.reason."+n, "Negotiate("+n+")")}
 			} else {
 				p = ExtPolicy{Act: ExtReject, Status: rapid.SampledFrom(rejectStatusesOr0).Draw(t, label+".ext.status."+n), Reason: genReason(t, label+".ext.reason."+n, "Negotiate("+n+")"),
-					Headers: genHeaders(t, label+".ext.hdr."+n, []string{"X-Reject-Why", "X-Rej-B"}, 2)}
+					Headers: genHeaders(t, label+".ext.hdr."+n, []string{"X-Reject-Why", "X-Rej-B", "Location"}, 2)}
 			}
 		default:
 			p.Act = rapid.SampledFrom([]ExtAct{ExtDecline, ExtAcceptAll, ExtAcceptAll, ExtAcceptFirst, ExtAcceptBare}).Draw(t, label+".ext.act."+n)
